@@ -225,8 +225,8 @@ theorem C05_attr_view [DecidableEq V] (W : World V) (LL : LowerLaws W) (P : Pars
 /-- **C05 for `Cls.__from__(data, options=runtime)` from the declaration as written.** -/
 theorem C05_init_refines [DecidableEq V] (W : World V) (LL : LowerLaws W) (c : ClassDecl V)
     (runtime : Option (Opts V)) (data : List (Key × V)) (hnd : (data.map (·.1)).Nodup)
-    (hwf : (mkParser W false c).wf W = true) :
-    let P := mkParser W false c
+    (hwf : (mkParser W c).wf W = true) :
+    let P := mkParser W c
     let o := (runtime.getD c.opts).normalise
     ((∃ m a, initSchema {} W c runtime data = .ok m a) ↔ (contract W P o data).errs = [])
     ∧ (∀ e, initSchema {} W c runtime data = .raised e → e ∈ (contract W P o data).errs)
@@ -236,5 +236,54 @@ theorem C05_init_refines [DecidableEq V] (W : World V) (LL : LowerLaws W) (c : C
   exact ⟨C05_success_iff W LL P hwf o data hnd,
     fun e h => C05_failfast_sound W LL P hwf o data hnd e h,
     fun es hm h => C05_collected_exact W LL P hwf o data hnd es hm h⟩
+
+/-! ### Non-vacuity, and the behaviour before the fix patches (negation witnesses; the same inputs are
+replayed on the real code from harness/corpus/C05.jsonl) -/
+
+/-- keys: 0 = 'a', 1 = 'A', 2 = 'a1', 3 = 'b', 4 = 'zz'; values are naturals, 10 stands for the string "1"
+(converted to 1), 99 for an unconvertible value, 0 is the falsy value of the predicate. -/
+def W₀ : World Nat where
+  lower k := if k = 1 then 0 else k
+  islower k := k != 1
+  fp _ v := if v = 10 then some 1 else if v = 99 then none else some v
+  pred _ v := v == 0
+  addConv v := some v
+
+theorem W₀_laws : LowerLaws W₀ := by
+  constructor
+  · intro k; simp only [W₀]; by_cases h : k = 1 <;> simp [h]
+  · intro k h; simp only [W₀] at h ⊢; by_cases h1 : k = 1 <;> simp_all
+
+/-- `class K(Schema): a: int = Field(alias_from=['a1'])` -/
+def cA : ClassDecl Nat := { fields := [{ attname := 0, aliasFrom := [2] }], opts := {} }
+
+/-- the hypotheses of the theorems are satisfiable -/
+example : (mkParser W₀ cA).wf W₀ = true := by decide
+example : (([(0, 1), (2, 1)] : List (Key × Nat)).map (·.1)).Nodup := by decide
+
+/-- `no_input='a'` with `mode='ra'`, parsed in mode 'w' (field.md "Modes and input/output"): before
+fixes/C05-mode-string-flags.patch the field took the input although it does not support the mode. -/
+def cMode : ClassDecl Nat :=
+  { fields := [{ attname := 0, default := some 5, noInput := .modes [97], mode := some [114, 97] }]
+    opts := { mode := some 119 } }
+
+theorem C05_legacy_mode_string_witness :
+    dget 0 (fieldFirst { modeStringReturns := true } W₀ (mkParser W₀ cMode) cMode.opts [(0, 1)]).result
+      ≠ dget 0 (contract W₀ (mkParser W₀ cMode) cMode.opts [(0, 1)]).result := by decide
+
+example : dget 0 (fieldFirst {} W₀ (mkParser W₀ cMode) cMode.opts [(0, 1)]).result
+      = dget 0 (contract W₀ (mkParser W₀ cMode) cMode.opts [(0, 1)]).result := by decide
+
+/-- a required field with a callable `no_input` and `mode='r'`, parsed in mode 'w': before
+fixes/C05-required-callable-no-input.patch its absence was an error although it cannot be given. -/
+def cPred : ClassDecl Nat :=
+  { fields := [{ attname := 0, noInput := .pred 0, mode := some [114] }], opts := { mode := some 119 } }
+
+theorem C05_legacy_required_callable_witness :
+    (fieldFirst { predSkipsMode := true } W₀ (mkParser W₀ cPred) cPred.opts []).errs
+      ≠ (contract W₀ (mkParser W₀ cPred) cPred.opts []).errs := by decide
+
+example : (fieldFirst {} W₀ (mkParser W₀ cPred) cPred.opts []).errs
+      = (contract W₀ (mkParser W₀ cPred) cPred.opts []).errs := by decide
 
 end Utv.C05
